@@ -18,6 +18,8 @@ from .leanfmt import ExtractError, lean_chars, lean_list, lean_bool, lean_int
 SENT = {"PREFIXES": "", "UNITS": "", "POWER": ""}
 POWER_EXPECTED = "(\\^[+-]?[1-9]\\d*)"
 META = set("\\^$.|?*+()[]{}")
+# `(?= *(\*|/|$))`: an atom of split_compound ends where a separator follows or the string ends
+SEP_LOOKAHEAD = "(?= *(\\*|/|$))"
 
 
 def _const_str(node):
@@ -233,7 +235,11 @@ def extract(repo):
     meth = _methods(f_sc)
     if "opt_pup" not in se.env or meth.get("opt_pup") != {"match"}:
         raise ExtractError("split_compound: expected opt_pup.match")
-    pcs, st, en = parse_shape(se.env["opt_pup"])
+    rx_sc = se.env["opt_pup"]
+    if rx_sc.endswith(SEP_LOOKAHEAD):
+        # the separator lookahead is rendered by extract/units_compound.py (Generated/UnitsCompound.lean)
+        rx_sc = rx_sc[:-len(SEP_LOOKAHEAD)]
+    pcs, st, en = parse_shape(rx_sc)
     comp_split_shape = shape_term(pcs, en)
 
     # --- scaling(): condition of the third prefix branch ---
